@@ -4,6 +4,7 @@
 ID=$1; WT=/tmp/mut/$ID/wt; OUT=/tmp/mut/$ID/out
 cd $WT || exit 2
 export CARGO_NET_OFFLINE=true
+[ -n "$VERIFY_TARGET_DIR" ] && export CARGO_TARGET_DIR=$VERIFY_TARGET_DIR
 demo=$(git status --porcelain -uall | grep '^??' | awk '{print $2}' | grep '/tests/.*\.rs$' | head -1)
 crate=$(echo $demo | cut -d/ -f1); tname=$(basename $demo .rs)
 touched=$(grep '^+++ b/' $OUT/patch.diff | sed 's#+++ b/##' | cut -d/ -f1 | sort -u | tr '\n' ' ')
